@@ -699,6 +699,19 @@ func probePoint(g *gen.G, d *ObjDesc) s2.Point {
 	return g.Point()
 }
 
+// aimAtShape replaces the probe points of a question about ONE shape of an index by a point well
+// inside that shape's extent and a point around its rim: the segment between them usually crosses
+// the shape's boundary, so that crossing and containment answers are not "nothing" nearly always
+// (an index's shapes may be spread over the whole sphere).
+func aimAtShape(g *gen.G, op *Op, sd gen.ShapeDesc) {
+	c, r := centerRadius([]gen.ShapeDesc{sd})
+	if r > 1.2 {
+		r = 1.2
+	}
+	op.P = g.PointNear(c, r*0.4)
+	op.Q = g.PointNear(c, r*1.4)
+}
+
 func probeCell(g *gen.G, d *ObjDesc) CellArg {
 	t := g.T
 	if t.Chance(700) {
@@ -845,6 +858,9 @@ func drawQuery(g *gen.G, descs []*ObjDesc, allowRel bool) Op {
 		op.ShapeID = int(t.Uint(uint32(imax(nsh, 1))))
 		op.Cross = s2.CrossingType(t.Uint(2))
 		op.Kind = pickIndexKind(t)
+		if (op.Kind == QCrossings || op.Kind == QShapeContains) && nsh > 0 && t.Chance(600) {
+			aimAtShape(g, &op, d.Shapes[op.ShapeID%nsh])
+		}
 		if op.Kind >= QFindEdges && op.Kind <= QIsConsDist {
 			op.EQ = drawEQOpts(g)
 			op.TK = int(t.Uint(NumTKinds))
